@@ -488,3 +488,50 @@ impl AsyncRead for PipeReader {
 }
 
 use std::future::Future;
+
+/// A writer that - like a `BufWriter`, or TLS while the socket would block - hands nothing to the
+/// transport until it is flushed.
+pub struct HoldUntilFlush {
+    inner: PipeWriter,
+    staged: Vec<u8>,
+    sent: usize,
+}
+
+impl HoldUntilFlush {
+    pub fn new(inner: PipeWriter) -> Self {
+        Self { inner, staged: Vec::new(), sent: 0 }
+    }
+    fn drain(&mut self, cx: &mut Context<'_>) -> Poll<io::Result<()>> {
+        while self.sent < self.staged.len() {
+            let this = &mut *self;
+            match Pin::new(&mut this.inner).poll_write(cx, &this.staged[this.sent..]) {
+                Poll::Ready(Ok(0)) => return Poll::Ready(Err(io::Error::new(io::ErrorKind::WriteZero, "transport took nothing"))),
+                Poll::Ready(Ok(n)) => self.sent += n,
+                Poll::Ready(Err(e)) => return Poll::Ready(Err(e)),
+                Poll::Pending => return Poll::Pending,
+            }
+        }
+        self.staged.clear();
+        self.sent = 0;
+        Poll::Ready(Ok(()))
+    }
+}
+
+impl AsyncWrite for HoldUntilFlush {
+    fn poll_write(mut self: Pin<&mut Self>, _cx: &mut Context<'_>, buf: &[u8]) -> Poll<io::Result<usize>> {
+        self.staged.extend_from_slice(buf);
+        Poll::Ready(Ok(buf.len()))
+    }
+    fn poll_flush(mut self: Pin<&mut Self>, cx: &mut Context<'_>) -> Poll<io::Result<()>> {
+        match self.drain(cx) {
+            Poll::Ready(Ok(())) => Pin::new(&mut self.inner).poll_flush(cx),
+            other => other,
+        }
+    }
+    fn poll_shutdown(mut self: Pin<&mut Self>, cx: &mut Context<'_>) -> Poll<io::Result<()>> {
+        match self.drain(cx) {
+            Poll::Ready(Ok(())) => Pin::new(&mut self.inner).poll_shutdown(cx),
+            other => other,
+        }
+    }
+}
